@@ -8,6 +8,7 @@ import ScVerif.C12.Reentrant
 import ScVerif.C12.PumpTrace
 import ScVerif.C12.Served
 import ScVerif.C12.Naming
+import ScVerif.C12.Wrapped
 /-!
 Driver handler for C12: parses one request line, runs the model, prints the canonical answer.
 
@@ -27,6 +28,8 @@ srv   <default> <fb> <fac> <ops> <method> U <wire> <childout>       history, the
 srv   <default> <fb> <fac> <ops> <method> S <transport> <m0> <wire> <childscript> <callerscript>   … a stream call
 ```
 gen   <dir> <file> <service>                              what the two generators emit for a service (path type path type)
+wroute <fb> <fac> <ops> <name> <method> <req> <stagedHdr> <stagedTrailer> <devicescript> <reuse r|f> <callerscript>   a stream call routed to a wrapped server (inner router + device)
+wcall <method> <req> <stagedHdr> <sentHdr> <stagedTrailer> <out>   a unary call on a wrapper with grpc.Header / grpc.Trailer
 Transports: `ow` overwrite, `mg` merge, `f<e>` fail, `of<e>` overwrite then fail; `<m0>` = `z` is the zero message.
 Callback kinds (shared with the Go harness, `callbackOf`): `has get rm add sib mix undo`.
 Factory kinds (shared with the Go harness): `none new err nil both pfx odd`; the fallback makes
@@ -137,6 +140,21 @@ def parseCaller? (s : String) : Option CallerScript :=
 
 def showCalls (cs : List Call) : String :=
   commaList (cs.map fun c => toString c.client ++ ":" ++ toString c.method ++ ":" ++ toString c.req)
+
+/-- Joined metadata as one token (injective on lists of tokens < 999) and back. -/
+def encL (l : List Tok) : Tok := l.foldl (fun a t => a * 1000 + (t + 1)) 0
+def decLF : Nat → Nat → List Tok
+  | 0, _ => []
+  | f + 1, n => if n = 0 then [] else decLF f (n / 1000) ++ [n % 1000 - 1]
+def showMDList (l : List Tok) : String := if l.isEmpty then "-" else "+".intercalate (l.map toString)
+
+def showWObs (o : Obs) : String :=
+  "calls=" ++ showCalls o.calls ++
+    " hdr=" ++ (match o.header with
+      | none => "none" | some none => "nil" | some (some h) => showMDList (decLF 30 h)) ++
+    " sent=" ++ commaList (o.sent.map toString) ++ " sends=" ++ toString o.sends ++
+    " tr=" ++ (match o.trailer with | none => "-" | some t => showMDList (decLF 30 t)) ++
+    " st=" ++ showOptNat o.status
 
 def showHeader : Option (Option Tok) → String
   | none => "none"
@@ -304,6 +322,30 @@ def handle? (toks : List String) : Option String :=
     let ops ← parseOps? ops
     let (s, rs) := run cfg St.init ops
     pure ("res=" ++ commaList (rs.map showRes) ++ " " ++ showSt s)
+  | ["wroute", fb, fac, ops, name, method, req, sh, st, cs, reuse, ks] => do
+    let cfg ← cfgOf fb fac
+    let ops ← parseOps? ops
+    let method ← parseNat? method
+    let req ← parseNat? req
+    let sh ← parseOptTok? sh
+    let st ← parseOptTok? st
+    let cs ← parseChild? cs
+    let ks ← parseCaller? ks
+    let reuse ← (if reuse = "r" then some true else if reuse = "f" then some false else none)
+    let (s, _) := run cfg St.init ops
+    let (s', got) := get cfg s (unTilde name)
+    pure (showWObs (routeWrapped encL got method req sh st cs reuse 998 ks) ++ " " ++ showSt s')
+  | ["wcall", method, req, sh, h, st, co] => do
+    let method ← parseNat? method
+    let req ← parseNat? req
+    let sh ← parseOptTok? sh
+    let h ← parseOptTok? h
+    let st ← parseOptTok? st
+    let co ← parseUOut? co
+    let ops := sh.toList.map HOp.setHeader ++ st.toList.map HOp.setTrailer ++ h.toList.map (fun x => HOp.sendHeader (some x))
+    let (out, hdr, tr) := invokeWrapped ops co
+    pure ("calls=1:" ++ toString method ++ ":" ++ toString req ++ " hdr=" ++ showMDList hdr ++ " tr=" ++ showMDList tr ++
+      " out=" ++ showUOut out)
   | ["route", fb, fac, ops, name, method, req, "U", co] => do
     let cfg ← cfgOf fb fac
     let ops ← parseOps? ops
